@@ -24,7 +24,7 @@ fn sync(mut b: Vec<u8>) -> Vec<u8> {
 }
 
 pub const PROGRAMS: &[&str] = &[
-    "prepare-then-bind", "two-names", "describe", "close-reparse", "two-binds-one-batch", "lru-order", "collide-a", "collide-b", "same-text-other-types", "parse-bind-same-batch", "case-variant", "error-parse", "error-parse-twice", "bind-close-reparse-one-batch", "sql-prepare-between", "sql-prepare-only",
+    "prepare-then-bind", "two-names", "describe", "close-reparse", "two-binds-one-batch", "lru-order", "collide-a", "collide-b", "same-text-other-types", "parse-bind-same-batch", "case-variant", "error-parse", "error-parse-twice", "error-then-parse-one-batch", "bind-close-reparse-one-batch", "sql-prepare-between", "sql-prepare-only",
 ];
 
 /// Program for client `c`. Texts carry the client's tag so that results are attributable.
@@ -168,6 +168,17 @@ pub fn program(c: usize, prog: &str) -> Script {
             b.extend(be("a", &t(1)));
             s = s.send_z(sync(b), "P(a,T2) B E S");
             s = s.send_z(sync(be("a", &t(2))), "B(a) E S");
+        }
+        "error-then-parse-one-batch" => {
+            // a rejected Parse and a good one in one batch: the server skips the second (it discards everything up
+            // to the Sync), so b is not prepared anywhere; preparing it again afterwards must work
+            let mut b = p("a", "SELECT ERR!PARSE", &[]);
+            b.extend(p("b", &t2, &[]));
+            s = s.send_z(sync(b), "P(a, bad) P(b,T2) S");
+            let mut b = p("b", &t2, &[]);
+            b.extend(be("b", &t(1)));
+            s = s.send_z(sync(b), "P(b,T2) B E S");
+            s = s.send_z(sync(be("b", &t(2))), "B(b) E S");
         }
         "error-parse-twice" => {
             // the same rejected text again: it was never prepared, so it must be sent (and rejected) again,
@@ -483,6 +494,7 @@ pub fn build(tier: &str) -> SimCheck {
                     ("error-parse", "prepare-then-bind"),
                     ("error-parse-twice", "prepare-then-bind"),
                     ("error-parse-twice", "error-parse-twice"),
+                    ("error-then-parse-one-batch", "prepare-then-bind"),
                     ("case-variant", "prepare-then-bind"),
                     ("prepare-then-bind", "sql-prepare-only"),
                     ("two-names", "sql-prepare-only"),
@@ -511,7 +523,7 @@ pub fn build(tier: &str) -> SimCheck {
         oracle: Box::new(oracle),
         bound: if thorough { 3 } else { 2 },
         limits: Limits { max_wall_s: if thorough { 1500.0 } else { 50.0 }, ..Default::default() },
-        rule: "generated: every batch of <= 2 (thorough 3) items over {P(a,T1), P(a,T2), P(b,T2), B(a)E, B(b)E, D(S,a), C(S,a), C(S,b), unnamed P B E, C(P,''), B E on a portal named like its statement, C(P,a)} after the prefixes {none, a prepared, a and b prepared}, followed by a probe Bind of a or b, kept when valid on a direct connection, x cache size {1,2,8}; hand-written: scenario = server/pool statement cache size {1,2,8} x pool_size {1,2} x one or two client programs over shared names a/b (prepare then bind across transactions, two names, Describe, Close + re-Parse with new text, two Binds in one batch, LRU order, structurally colliding (text, n, types) encodings, same text with other types, Parse+Bind pairs in one batch, case variants, rejected Parse, the same rejected text parsed again under the same and another name, a name bound, closed and re-prepared with another known text in one batch, a simple-protocol PREPARE (which makes the pooler DEALLOCATE ALL at check-in) between uses of a protocol-level statement); a RELOAD that rebuilds the pool (fresh statement cache) between the uses of a name by two clients; all schedules with <= bound deviations; oracle = direct-connection reference per client".into(),
+        rule: "generated: every batch of <= 2 (thorough 3) items over {P(a,T1), P(a,T2), P(b,T2), B(a)E, B(b)E, D(S,a), C(S,a), C(S,b), unnamed P B E, C(P,''), B E on a portal named like its statement, C(P,a)} after the prefixes {none, a prepared, a and b prepared}, followed by a probe Bind of a or b, kept when valid on a direct connection, x cache size {1,2,8}; hand-written: scenario = server/pool statement cache size {1,2,8} x pool_size {1,2} x one or two client programs over shared names a/b (prepare then bind across transactions, two names, Describe, Close + re-Parse with new text, two Binds in one batch, LRU order, structurally colliding (text, n, types) encodings, same text with other types, Parse+Bind pairs in one batch, case variants, rejected Parse, the same rejected text parsed again under the same and another name, a rejected and a good Parse in one batch, a name bound, closed and re-prepared with another known text in one batch, a simple-protocol PREPARE (which makes the pooler DEALLOCATE ALL at check-in) between uses of a protocol-level statement); a RELOAD that rebuilds the pool (fresh statement cache) between the uses of a name by two clients; all schedules with <= bound deviations; oracle = direct-connection reference per client".into(),
         assumptions: vec!["the reference backend without a pooler defines the direct-connection behaviour; synthesised ParseComplete/CloseComplete may be reordered within a reply".into()],
     }
 }
